@@ -80,6 +80,13 @@ let run inp obs : string option * string option =
     let res = L.map2 (fun meth o ->
         match String.split_on_char '|' o with
         | [cfg; ann] ->
+          let unbindable = L.exists (fun (s, sh) -> sh = 5 && SelectorSpec.covers_b s meth) rules in
+          if unbindable then
+            (if cfg = "panic" then (Some (Printf.sprintf "registering %s with the service config panicked" (show meth)), None)
+             else if cfg <> "regerr" then
+               (Some (Printf.sprintf "a config rule that selects %s cannot be bound to it (unknown field), yet the registration succeeded (the same rule as annotation: %s)" (show meth) ann), None)
+             else (None, None))
+          else
           if cfg = "panic" then (Some (Printf.sprintf "registering %s with the service config panicked" (show meth)), None)
           else if cfg = "regerr" then (Some (Printf.sprintf "registering %s with the service config failed" (show meth)), None)
           else begin
